@@ -269,17 +269,12 @@ DoubleSupport::modulus(
     {
         return getNaN();
     }
-    else if (long(theLHS) == theLHS && long(theRHS) == theRHS)
-    {
-        return long(theLHS) % long(theRHS);
-    }
     else
     {
-        double  theDummy;
-
-        double  theResult = divide(theLHS, theRHS);
-
-        return std::modf(theResult, &theDummy) * theRHS;
+        // fmod() computes the exact remainder of a truncating
+        // division, with the sign of the dividend, which is what
+        // XPath requires, including negative zero and infinities.
+        return std::fmod(theLHS, theRHS);
     }
 }
 
